@@ -4,6 +4,7 @@
 (* state machine.                                                          *)
 (*   cx     the context: a package tree (data, ImportsCore!MkTree), the    *)
 (*          module being rendered, which API drives the collector          *)
+(*   pool   the calls this context can make (ImportsCore!Pool, constant)    *)
 (*   calls  the add-calls made so far (ghost: what was ASKED for)          *)
 (*   st     the collector: absolute / relative / plain / conditional       *)
 (*   out    the rendered statements after Render                           *)
@@ -17,23 +18,26 @@
 (*                the region KnownRegion (the listed findings).            *)
 (***************************************************************************)
 EXTENDS ImportsCore
-CONSTANTS OutPkgs, MaxCalls, AsIs
-VARIABLES cx, calls, st, phase, render, out, fails
-vars == <<cx, calls, st, phase, render, out, fails>>
+CONSTANTS OutPkgs,   \* output packages (sequences of identifiers)
+          Mats,      \* SUBSET BOOLEAN: is the tree on disk while the calls are made (only the as-is collector cares)
+          MaxCalls, AsIs
+VARIABLES cx, pool, calls, st, phase, render, out, fails
+vars == <<cx, pool, calls, st, phase, render, out, fails>>
 
-Contexts == UNION {ContextsOf(o) : o \in OutPkgs}
+Contexts == UNION {ContextsOf(o, Mats) : o \in OutPkgs}
 
-Init == cx \in Contexts /\ calls = {} /\ st = Empty /\ phase = "add" /\ render = "" /\ out = {} /\ fails = {}
+Init == cx \in Contexts /\ pool = Pool(cx) /\ calls = {} /\ st = Empty /\ phase = "add" /\ render = "" /\ out = {} /\ fails = {}
 
 Do(c) == /\ phase = "add" /\ c \notin calls /\ Cardinality(calls) < MaxCalls
          /\ calls' = calls \cup {c} /\ st' = Apply(cx, st, c, AsIs)
-         /\ UNCHANGED <<cx, phase, render, out, fails>>
-Method(op) == \E c \in Pool(cx) : c.op = op /\ Do(c)
+         /\ UNCHANGED <<cx, pool, phase, render, out, fails>>
+Method(op) == \E c \in pool : c.op = op /\ Do(c)
 
 CtxAddImport      == Method("ctx_import")      \* RenderContext.add_import(logical_module, name | None)
 CtxAddPlainImport == Method("ctx_plain")       \* RenderContext.add_plain_import
 CtxTypingForType  == Method("ctx_type")        \* RenderContext.add_typing_imports_for_type
 CtxAddConditional == Method("ctx_cond")        \* RenderContext.add_conditional_import
+CtxCoreImportPath == Method("ctx_core_path")   \* RenderContext.get_core_import_path + the import of a name from it
 ColAddImport      == Method("col_import")      \* ImportCollector.add_import
 ColAddRelative    == Method("col_relative")    \* ImportCollector.add_relative_import
 ColAddTyping      == Method("col_typing")      \* ImportCollector.add_typing_import
@@ -42,9 +46,9 @@ ColAddPlain       == Method("col_plain")       \* ImportCollector.add_plain_impo
 RenderBlock == \E r \in Renders(cx) : /\ phase = "add" /\ phase' = "done" /\ render' = r
                                       /\ out' = Render(cx, st, r, AsIs)
                                       /\ fails' = Judge(cx, Reqs(cx, calls), out', r)
-                                      /\ UNCHANGED <<cx, calls, st>>
+                                      /\ UNCHANGED <<cx, pool, calls, st>>
 
-Next == CtxAddImport \/ CtxAddPlainImport \/ CtxTypingForType \/ CtxAddConditional \/ ColAddImport \/ ColAddRelative
+Next == CtxAddImport \/ CtxAddPlainImport \/ CtxTypingForType \/ CtxAddConditional \/ CtxCoreImportPath \/ ColAddImport \/ ColAddRelative
         \/ ColAddTyping \/ ColAddPlain \/ RenderBlock
 Spec == Init /\ [][Next]_vars
 
@@ -68,6 +72,7 @@ OrderIndependent == st = ApplyAll(cx, calls, AsIs)
 \* the relative-import arithmetic: for every module m of the output package seen from the directory of the current
 \* module, dots + tail resolve (Python) back to m and never need more dots than there are packages
 RelativeArithmetic ==
+  calls = {} =>
   LET dir == PkgOf(cx.cur, cx.curpkg) IN
   \A m \in {x \in cx.tree.mods : Pfx(cx.root, x.path)} :
      LET r == IF m.pkg THEN RelDir(dir, m.path) ELSE RelFile(dir, m.path) IN
@@ -80,8 +85,9 @@ KnownRegion(f) ==
   \/ f.clause = "no_loss" /\ f.locus.form = "plain" /\ f.locus.target \in {"internal", "root"}
   \/ f.clause = "grouped" /\ f.locus.got = "future_not_first"
   \/ f.clause = "typing_complete" /\ f.locus.name \in {"IO", "datetime"}
+  \/ f.locus.via = "ctx_core_path" /\ f.locus.got = "beyond_top" /\ f.clause \in {"core_form", "within_top"}
   \/ cx.api = "collector" /\ f.clause \in {"no_self", "once"}
-  \/ cx.api = "collector" /\ render = "get_import_statements" /\ cx.curpkg /\ f.clause \in {"resolves", "no_spurious", "within_top"}
+  \/ cx.api = "collector" /\ render = "get_import_statements" /\ f.locus.cur = "package" /\ f.locus.form = "relative" /\ f.clause \in {"resolves", "no_spurious"}
 AsIsOnlyKnown == \A f \in Failures : KnownRegion(f)
 AsIsClean == Failures = {}
 =============================================================================
